@@ -31,7 +31,11 @@ func newClient(w *world, idx int) *client {
 		}
 		c.lanes = append(c.lanes, ln)
 	}
-	w.r.Logf("%s: NFSv4.%d, %d lanes", c.name, c.minor, nl)
+	if w.vanishOn && t.Bool(1, 4) {
+		// This client goes silent early, with whatever it holds.
+		c.silentAfter = 3 + t.Choice(6)
+	}
+	w.r.Logf("%s: NFSv4.%d, %d lanes, silent after %d", c.name, c.minor, nl, c.silentAfter)
 	for _, ln := range c.lanes {
 		ln := ln
 		ln.actor = w.k.Spawn(ln.name, ln.loop)
@@ -60,6 +64,9 @@ func (ln *lane) loop() {
 			}
 		}
 		req, quit := ln.choose()
+		if c.silentAfter > 0 && ln.issued >= c.silentAfter {
+			req, quit = nil, true
+		}
 		if quit {
 			w.k.FaultsFired["client-lane-vanishes"]++
 			w.r.Logf("%s vanishes", ln.name)
@@ -69,7 +76,7 @@ func (ln *lane) loop() {
 			continue
 		}
 		ln.issued++
-		if w.dupOn && req.probe == "" && req.kind != kReleaseLockOwner {
+		if w.dupOn && req.probe == "" && req.kind != kReleaseLockOwner && req.kind != kTooManyOps {
 			nd := w.t.Weighted([]int{6, 3, 1})
 			for i := 0; i < nd; i++ {
 				c.dupQueue = append(c.dupQueue, req)
@@ -787,6 +794,21 @@ func (ln *lane) choose() (req *request, quit bool) {
 			})
 			add(1, func() *request { return ln.reqDestroyClientID() })
 		}
+	}
+	if c.minor == 1 {
+		// More operations than the session allows: refused as a whole,
+		// the slot stays usable.
+		add(2, func() *request {
+			req := w.newRequest(ln, kTooManyOps)
+			req.desc = "PUTROOTFH + 8 x GETFH (more than ca_maxoperations)"
+			ops := []nfsv4.NfsArgop4{opPutRootFH()}
+			for i := 0; i < 8; i++ {
+				ops = append(ops, opGetFH())
+			}
+			ln.finish(req, ops...)
+			req.replay = false
+			return req
+		})
 	}
 	vanish := 0
 	if w.vanishOn {
